@@ -4,7 +4,10 @@
 // Type, on the expression itself and on CopyReset copies, and prints what the implementation answered. The ASTs
 // contain lambda nodes (LAM: *ast.LambdaNode inside the expression, EvalLambdaNode) at any position.
 // External library calls (regex matching, math/strings/strconv/time functions) are computed here with the
-// Go library directly — never through kapacitor — and carried in the op lines as oracle tables.
+// Go library directly — never through kapacitor — and carried in the op lines as oracle tables. The `re` lines
+// (regexp.MatchString of pattern and subject) are emitted for EVERY =~ / !~ with leaf operands; the driver uses them as
+// the reference value for patterns outside the fragment it defines itself (literals + anchors) and compares them with
+// its own definition inside it. gen.go draws pattern / subject pairs designed to separate the readings of a pattern.
 package c04
 
 import (
